@@ -6,6 +6,7 @@ import (
 	"maps"
 	"net/http"
 	"os"
+	"path/filepath"
 	"strconv"
 	"strings"
 
@@ -560,19 +561,76 @@ func (r *Runner) Format(rslv resolver.Resolver) error {
 	}
 
 	formatted := formatter.New(r.config.Format).Format(vcl)
-	var w io.Writer
-	if r.config.Format.Overwrite {
-		writeln(cyan, "Formatted %s.", main.Name)
-		fp, err := os.OpenFile(main.Name, os.O_TRUNC|os.O_WRONLY, 0o644)
-		if err != nil {
-			return errors.WithStack(err)
-		}
-		defer fp.Close()
-		w = fp
-	} else {
-		w = os.Stdout
+	if formatted == nil {
+		// The formatter only handles a file of declarations (e.g. not a statement-only snippet)
+		return fmt.Errorf("%s could not be formatted: the file must consist of declarations", main.Name)
 	}
-	if _, err := io.Copy(w, formatted); err != nil {
+	if !r.config.Format.Overwrite {
+		if _, err := io.Copy(os.Stdout, formatted); err != nil {
+			return err
+		}
+		return nil
+	}
+
+	// Never damage the target: build the whole result first, write it to a temporary file
+	// in the same directory and atomically rename it over the target only after every
+	// write has succeeded.
+	out, err := io.ReadAll(formatted)
+	if err != nil {
+		return errors.WithStack(err)
+	}
+	if err := overwriteFile(main.Name, out); err != nil {
+		return errors.WithStack(err)
+	}
+	writeln(cyan, "Formatted %s.", main.Name)
+	return nil
+}
+
+// overwriteFile atomically replaces the content of the file with data.
+// On any failure the original file is left untouched.
+func overwriteFile(name string, data []byte) error {
+	// Write through symbolic links instead of replacing the link itself
+	target, err := filepath.EvalSymlinks(name)
+	if err != nil {
+		return err
+	}
+	info, err := os.Stat(target)
+	if err != nil {
+		return err
+	}
+	// Keep the semantics of opening the file for writing: a read-only file is not replaced
+	fp, err := os.OpenFile(target, os.O_WRONLY, 0)
+	if err != nil {
+		return err
+	}
+	fp.Close()
+
+	tmp, err := os.CreateTemp(filepath.Dir(target), "."+filepath.Base(target)+".falco-fmt-*")
+	if err != nil {
+		return err
+	}
+	cleanup := func() {
+		tmp.Close()
+		os.Remove(tmp.Name())
+	}
+	if _, err := tmp.Write(data); err != nil {
+		cleanup()
+		return err
+	}
+	if err := tmp.Chmod(info.Mode().Perm()); err != nil {
+		cleanup()
+		return err
+	}
+	if err := tmp.Sync(); err != nil {
+		cleanup()
+		return err
+	}
+	if err := tmp.Close(); err != nil {
+		os.Remove(tmp.Name())
+		return err
+	}
+	if err := os.Rename(tmp.Name(), target); err != nil {
+		os.Remove(tmp.Name())
 		return err
 	}
 	return nil
